@@ -60,6 +60,7 @@ fn reader_ops<TC: ModelCfg>(end_epoch: u64) -> Vec<(String, Op)> {
         ("history_a_complete".into(), Op::History(a.clone(), HistoryParams::Complete)),
         ("history_a_recent1".into(), Op::History(a.clone(), HistoryParams::MostRecent(1))),
         ("audit".into(), Op::Audit(0, end_epoch)),
+        ("audit_next".into(), Op::Audit(end_epoch, end_epoch + 1)),
         ("epoch_hash".into(), Op::EpochHash),
     ]
 }
@@ -214,7 +215,13 @@ fn cases<TC: ModelCfg>(quick: bool) -> Vec<Case> {
                     if poller && (k == 0 || (quick && k == 3)) {
                         continue;
                     }
-                    for (rname, rop) in reader_ops::<TC>(1) {
+                    let mut ops = reader_ops::<TC>(1);
+                    if k >= 1 {
+                        // ranges ending at the newest epoch in storage, which the lagging reader has not seen
+                        ops.push(("audit_to_storage_epoch".into(), Op::Audit(0, 1 + k as u64)));
+                        ops.push(("audit_last_step".into(), Op::Audit(k as u64, 1 + k as u64)));
+                    }
+                    for (rname, rop) in ops {
                         let mut sc = base_sc();
                         sc.initial = initial.clone();
                         sc.reader_cache = CacheCfg::Default;
